@@ -14,6 +14,11 @@
 //	sw2    flow rules of `sw2` switch between lists that never reject: every request must pass;
 //	fixedB `fixedB` has one rejecting flow rule loaded once; churn on other resources must never let a request pass;
 //	fixedP `fixedP` has no rule in any module: every request must pass, whatever is churned elsewhere.
+//	cbB    has an open circuit breaker, isoB a fully occupied isolation rule: while the rules of OTHER resources are
+//	       churned (valid lists, all-invalid lists, clears, global reloads that keep cbB / isoB) every request on them
+//	       must stay blocked by that breaker / that isolation rule;
+//	same   one entry is exited / error-traced by several goroutines at the same moment; at the end every resource's
+//	       concurrency gauge must be back at 0;
 //	att    three goroutines pass ONE read-only map through WithAttachments(shared) + WithAttachment(k, v): the API must
 //	       not write into the caller's map (race detector; the map must be unchanged after the run);
 //	hsu    a hotspot Concurrency rule is fed unhashable arguments (slice / map / struct with a slice: the parameter cache
@@ -50,6 +55,7 @@ import (
 	"github.com/alibaba/sentinel-golang/core/stat"
 	"github.com/alibaba/sentinel-golang/core/system"
 	"github.com/alibaba/sentinel-golang/logging"
+	"github.com/alibaba/sentinel-golang/util"
 	"github.com/alibaba/sentinel-golang/util/verifhook"
 )
 
@@ -180,6 +186,14 @@ func sw2Lists() [][]*flow.Rule {
 	}
 }
 
+func cbBRule() *cb.Rule {
+	return &cb.Rule{Resource: "cbB", Strategy: cb.ErrorCount, RetryTimeoutMs: 100000000, MinRequestAmount: 1, StatIntervalMs: 600000, Threshold: 0}
+}
+
+func isoBRule() *isolation.Rule {
+	return &isolation.Rule{Resource: "isoB", MetricType: isolation.Concurrency, Threshold: 1}
+}
+
 var churnRes = []string{"churn0", "churn1", "churn2"}
 
 func pick(r *rand.Rand, xs []string) string { return xs[r.Intn(len(xs))] }
@@ -195,9 +209,14 @@ func main() {
 	seed := flag.Int64("seed", 1, "seed")
 	workers := flag.Int("workers", 6, "traffic goroutines")
 	withOutlier := flag.Bool("outlier", true, "include the outlier module (chain with the outlier slots + churn)")
+	mode := flag.String("mode", "mix", "mix: traffic x churn x readers on the real clock; clockstep: getters racing with a virtual clock that steps across bucket / window boundaries")
 	flag.Parse()
 	res.Seed = *seed
 	_ = logging.ResetGlobalLogger(countingLogger{})
+	if *mode == "clockstep" {
+		runClockStep(*seconds, *seed)
+		return
+	}
 	// randomized perturbation at the hooks in front of the lock-free atomic accesses
 	var ycount uint32
 	verifhook.Sched = func(string) {
@@ -217,6 +236,29 @@ func main() {
 	fixedRule := fr("Q", "fixedB", 0)
 	if _, err := flow.LoadRulesOfResource("fixedB", []*flow.Rule{fixedRule}); err != nil {
 		panic(err)
+	}
+	// cross-resource isolation: cbB has an OPEN breaker, isoB is FULL — churn on other resources (valid, all-invalid and
+	// cleared rule lists) must never change that
+	if _, err := cb.LoadRulesOfResource("cbB", []*cb.Rule{cbBRule()}); err != nil {
+		panic(err)
+	}
+	for i := 0; i < 50; i++ {
+		e, b := sentinel.Entry("cbB", sentinel.WithTrafficType(base.Outbound))
+		if b != nil {
+			break
+		}
+		sentinel.TraceError(e, errors.New("boom"))
+		e.Exit()
+	}
+	if _, b := sentinel.Entry("cbB", sentinel.WithTrafficType(base.Outbound)); b == nil || b.BlockType() != base.BlockTypeCircuitBreaking {
+		panic("race15: could not open the breaker of cbB")
+	}
+	if _, err := isolation.LoadRulesOfResource("isoB", []*isolation.Rule{isoBRule()}); err != nil {
+		panic(err)
+	}
+	isoHolder, hb := sentinel.Entry("isoB", sentinel.WithTrafficType(base.Outbound))
+	if hb != nil {
+		panic("race15: could not occupy isoB")
 	}
 	osc := sentinel.BuildDefaultSlotChain()
 	osc.AddRuleCheckSlot(outlier.DefaultSlot)
@@ -258,6 +300,18 @@ func main() {
 			} else if rl, ok := b.TriggeredRule().(*flow.Rule); !ok || rl.ID != "Q" {
 				bad("fixedB: blocked by %v", b.TriggeredRule())
 			}
+		case "cbB":
+			if b == nil {
+				bad("cbB: request passed although its breaker is open (retry timeout 10^8 ms) and only other resources' rules are churned")
+			} else if b.BlockType() != base.BlockTypeCircuitBreaking {
+				bad("cbB: blocked by %v instead of the open breaker", b.BlockType())
+			}
+		case "isoB":
+			if b == nil {
+				bad("isoB: request passed although its single isolation slot is occupied and only other resources' rules are churned")
+			} else if b.BlockType() != base.BlockTypeIsolation {
+				bad("isoB: blocked by %v instead of isolation", b.BlockType())
+			}
 		case "sw2", "fixedP":
 			if b != nil {
 				bad("%s: request blocked (%v) although none of its rule lists can reject", name, b.Error())
@@ -281,7 +335,7 @@ func main() {
 			k := r.Intn(10)
 			switch {
 			case k < 4:
-				name := []string{"sw", "sw2", "fixedB", "fixedP"}[r.Intn(4)]
+				name := []string{"sw", "sw2", "fixedB", "fixedP", "cbB", "isoB"}[r.Intn(6)]
 				count(res.Requests, name)
 				oracleReq(r, name)
 			case k < 8 || !*withOutlier:
@@ -343,7 +397,11 @@ func main() {
 			flow.LoadRulesOfResource(c, []*flow.Rule{fr("x", c, float64(r.Intn(50)))})
 			count(res.Churn, "flow.LoadRulesOfResource(churn)")
 		case 4:
-			flow.ClearRulesOfResource(pick(r, churnRes))
+			c := pick(r, churnRes)
+			if r.Intn(2) == 0 {
+				flow.LoadRulesOfResource(c, []*flow.Rule{fr("bad", c, -1)}) // all-invalid list
+			}
+			flow.ClearRulesOfResource(c)
 			count(res.Churn, "flow.ClearRulesOfResource(churn)")
 		case 5:
 			// global replacement that keeps the oracle resources' meaning
@@ -365,7 +423,7 @@ func main() {
 		c := pick(r, churnRes)
 		switch r.Intn(4) {
 		case 0:
-			isolation.LoadRules([]*isolation.Rule{{Resource: c, MetricType: isolation.Concurrency, Threshold: uint32(1 + r.Intn(8))}})
+			isolation.LoadRules([]*isolation.Rule{isoBRule(), {Resource: c, MetricType: isolation.Concurrency, Threshold: uint32(1 + r.Intn(8))}})
 			count(res.Churn, "isolation.LoadRules")
 		case 1:
 			isolation.LoadRulesOfResource(c, []*isolation.Rule{{Resource: c, MetricType: isolation.Concurrency, Threshold: uint32(1 + r.Intn(8))}})
@@ -374,8 +432,12 @@ func main() {
 			isolation.ClearRulesOfResource(c)
 			count(res.Churn, "isolation.ClearRulesOfResource")
 		case 3:
-			isolation.ClearRules()
-			count(res.Churn, "isolation.ClearRules")
+			// all-invalid list on c (threshold 0 is invalid), then clear it; and the global reload that only keeps isoB
+			// (ClearRules itself = LoadRules(nil) would legitimately free isoB)
+			isolation.LoadRulesOfResource(c, []*isolation.Rule{{Resource: c, MetricType: isolation.Concurrency, Threshold: 0}})
+			isolation.ClearRulesOfResource(c)
+			isolation.LoadRules([]*isolation.Rule{isoBRule()})
+			count(res.Churn, "isolation.invalid+clear+reload")
 		}
 		maybeYield(r)
 	})
@@ -409,7 +471,7 @@ func main() {
 		}
 		switch r.Intn(4) {
 		case 0:
-			cb.LoadRules([]*cb.Rule{mk()})
+			cb.LoadRules([]*cb.Rule{cbBRule(), mk()})
 			count(res.Churn, "circuitbreaker.LoadRules")
 		case 1:
 			cb.LoadRulesOfResource(c, []*cb.Rule{mk(), mk()})
@@ -418,8 +480,20 @@ func main() {
 			cb.ClearRulesOfResource(c)
 			count(res.Churn, "circuitbreaker.ClearRulesOfResource")
 		case 3:
-			cb.ClearRules()
-			count(res.Churn, "circuitbreaker.ClearRules")
+			// an all-invalid list (accepted with a warning, builds no breaker), then the clear of the same resource
+			inv := mk()
+			inv.StatIntervalMs = 0
+			inv.Threshold = -1
+			if r.Intn(2) == 0 {
+				cb.LoadRulesOfResource(c, []*cb.Rule{inv})
+			} else {
+				cb.LoadRulesOfResource(c, []*cb.Rule{mk()})
+			}
+			cb.ClearRulesOfResource(c)
+			if r.Intn(8) == 0 {
+				cb.LoadRules([]*cb.Rule{cbBRule()}) // global reload that keeps only cbB (ClearRules would legitimately drop it)
+			}
+			count(res.Churn, "circuitbreaker.invalid/valid+clear")
 		}
 		maybeYield(r)
 	})
@@ -513,6 +587,36 @@ func main() {
 			maybeYield(r)
 		})
 	}
+
+	// ---- one entry, several goroutines: Exit / Exit(WithError) / TraceError / SetError at the same moment -----------
+	spawn("sameentry", func(r *rand.Rand) {
+		name := pick(r, churnRes)
+		e, b := sentinel.Entry(name, sentinel.WithTrafficType(base.Outbound))
+		count(res.Requests, "sameentry")
+		if b != nil {
+			return
+		}
+		var ew sync.WaitGroup
+		start := make(chan struct{})
+		acts := []func(){
+			func() { e.Exit() },
+			func() { e.Exit(base.WithError(errors.New("late"))) },
+			func() { sentinel.TraceError(e, errors.New("traced")) },
+			func() { e.SetError(errors.New("set")); e.Exit() },
+		}
+		for _, act := range acts[:2+r.Intn(3)] {
+			act := act
+			ew.Add(1)
+			go func() {
+				defer ew.Done()
+				<-start
+				guard("sameentry", act)
+			}()
+		}
+		close(start)
+		ew.Wait()
+		e.Exit()
+	})
 
 	// ---- one read-only attachment map shared by many goroutines --------------------------------------------------------
 	sharedAtt := map[interface{}]interface{}{"tenant": "t1", "zone": 7}
@@ -622,11 +726,161 @@ func main() {
 		n := runtime.Stack(buf, true)
 		res.Stuck = string(buf[:n])
 	}
+	if !res.Deadlock {
+		isoHolder.Exit()
+		for _, n := range stat.ResourceNodeList() {
+			if n.ResourceName() == "hsu" || n.ResourceName() == "osvc" {
+				continue // provoked slot-chain panics skip the statistic slots there (C01's panic-pass-gauge finding)
+			}
+			if c := n.CurrentConcurrency(); c != 0 {
+				bad("%s: concurrency gauge is %d after all entries have exited (an Exit took effect twice, or not at all)", n.ResourceName(), c)
+			}
+		}
+	}
 	if len(sharedAtt) != 2 || sharedAtt["tenant"] != "t1" || sharedAtt["zone"] != 7 {
 		bad("the attachment map shared read-only by the callers was modified by the API: %v", sharedAtt)
 	}
 	res.Seconds = time.Since(t0).Seconds()
 	res.Yields = atomic.LoadInt64(&yieldsCnt)
+	mu.Lock()
+	b, _ := json.Marshal(&res)
+	mu.Unlock()
+	fmt.Println("RESULT " + string(b))
+	if res.Deadlock {
+		os.Exit(3)
+	}
+}
+
+// ---------------------------------------------------------------------------------------------------------------------
+// clockstep mode: a virtual clock that a stepper goroutine pushes across bucket and window boundaries, while traffic
+// completes requests and readers call every statistics getter (AvgRT, MinRT, GetQPS, GetSum, MetricsOnCondition ...),
+// also through a system rule on the inbound average RT.  Any panic (escaped to the caller or recovered inside the slot
+// chain) is a failure; the race detector watches as usual.
+// ---------------------------------------------------------------------------------------------------------------------
+
+type stepClock struct{ ns uint64 }
+
+func (c *stepClock) Now() time.Time            { return time.Unix(0, int64(atomic.LoadUint64(&c.ns))) }
+func (c *stepClock) Sleep(d time.Duration)     { atomic.AddUint64(&c.ns, uint64(d)) }
+func (c *stepClock) CurrentTimeMillis() uint64 { return atomic.LoadUint64(&c.ns) / 1e6 }
+func (c *stepClock) CurrentTimeNano() uint64   { return atomic.LoadUint64(&c.ns) }
+
+func runClockStep(seconds float64, seed int64) {
+	clk := &stepClock{ns: uint64(time.Now().Add(2 * time.Hour).UnixNano())}
+	util.SetClock(clk)
+	system.LoadRules([]*system.Rule{{MetricType: system.AvgRT, TriggerCount: huge, Strategy: system.NoAdaptive}})
+	names := []string{"cs0", "cs1", "cs2"}
+	var wg sync.WaitGroup
+	var steps, gets int64
+	run := func(name string, idx int, body func(r *rand.Rand)) {
+		r := rand.New(rand.NewSource(seed*7919 + int64(idx)*104729))
+		wg.Add(1)
+		go func() {
+			defer wg.Done()
+			for atomic.LoadInt32(&stop) == 0 {
+				guard(name, func() { body(r) })
+			}
+		}()
+	}
+	// the stepper: mostly small steps, regularly a jump right onto / just before / far beyond a bucket or window boundary
+	run("stepper", 0, func(r *rand.Rand) {
+		now := atomic.LoadUint64(&clk.ns) / 1e6
+		var d uint64
+		switch r.Intn(6) {
+		case 0:
+			d = 500 - now%500 // onto the next bucket boundary of the default statistic (500 ms buckets)
+		case 1:
+			d = 500 - now%500 - 1
+		case 2:
+			d = 1000 // one whole read window (default metric: 1 s)
+		case 3:
+			d = 10000 + uint64(r.Intn(3)) // the whole underlying array (10 s)
+		default:
+			d = uint64(r.Intn(40))
+		}
+		atomic.AddUint64(&clk.ns, d*1e6)
+		atomic.AddInt64(&steps, 1)
+		if r.Intn(3) == 0 {
+			time.Sleep(time.Duration(20+r.Intn(200)) * time.Microsecond)
+		} else {
+			runtime.Gosched()
+		}
+	})
+	for i := 0; i < 3; i++ {
+		run(fmt.Sprintf("cs-traffic%d", i), 1+i, func(r *rand.Rand) {
+			name := pick(r, names)
+			opts := []sentinel.EntryOption{}
+			if r.Intn(2) == 0 {
+				opts = append(opts, sentinel.WithTrafficType(base.Inbound))
+			}
+			e, b := sentinel.Entry(name, opts...)
+			count(res.Requests, name)
+			if b != nil {
+				count(res.Outcomes, "cs:block")
+				return
+			}
+			count(res.Outcomes, "cs:pass")
+			if r.Intn(4) == 0 {
+				sentinel.TraceError(e, errors.New("x"))
+			}
+			e.Exit()
+			if r.Intn(6) == 0 { // go quiet for a while so that the completed requests leave the window
+				time.Sleep(time.Duration(r.Intn(1500)) * time.Microsecond)
+			}
+		})
+	}
+	for i := 0; i < 4; i++ {
+		run(fmt.Sprintf("cs-reader%d", i), 10+i, func(r *rand.Rand) {
+			var n *stat.ResourceNode
+			if r.Intn(3) == 0 {
+				n = stat.InboundNode()
+			} else {
+				n = stat.GetResourceNode(pick(r, names))
+			}
+			if n == nil {
+				return
+			}
+			for k := 0; k < 50; k++ {
+				switch r.Intn(9) {
+				case 0, 1, 2:
+					_ = n.AvgRT()
+				case 3:
+					_ = n.MinRT()
+				case 4:
+					_ = n.GetQPS(base.MetricEvent(r.Intn(5)))
+					_ = n.GetPreviousQPS(base.MetricEvent(r.Intn(5)))
+				case 5:
+					_ = n.GetSum(base.MetricEvent(r.Intn(5)))
+					_ = n.GetMaxAvg(base.MetricEvent(r.Intn(5)))
+				case 6:
+					_ = n.MaxConcurrency()
+					_ = n.CurrentConcurrency()
+				case 7:
+					_ = n.MetricsOnCondition(func(uint64) bool { return true })
+				case 8:
+					if rs, err := n.GenerateReadStat(1, 1000); err == nil && rs != nil {
+						_ = rs.GetQPS(base.MetricEventPass)
+						_ = rs.MinRT()
+					}
+				}
+				atomic.AddInt64(&gets, 1)
+			}
+			atomic.AddInt64(&res.OracleChecked, 50)
+		})
+	}
+	t0 := time.Now()
+	time.Sleep(time.Duration(seconds * float64(time.Second)))
+	atomic.StoreInt32(&stop, 1)
+	done := make(chan struct{})
+	go func() { wg.Wait(); close(done) }()
+	select {
+	case <-done:
+	case <-time.After(30 * time.Second):
+		res.Deadlock = true
+	}
+	res.Seconds = time.Since(t0).Seconds()
+	res.Reads = atomic.LoadInt64(&gets)
+	res.Switches = atomic.LoadInt64(&steps)
 	mu.Lock()
 	b, _ := json.Marshal(&res)
 	mu.Unlock()
